@@ -4,6 +4,9 @@ manifest stays valid while checks are added)."""
 import json, os
 ROOT = os.path.dirname(os.path.abspath(__file__))
 CHECKS = {
+ "C01": dict(level="exploration", technique="end-to-end reference-model monitor: monitoring object writer (typestate + byte/metadata equality) over boundary-lattice sessions, step-budget hang detector, overflow/debug-assert instrumentation",
+     text="Tens of thousands of seeded sessions (systematic grid over 5 FEC schemes x E x B x parity x length lattice, cenc grid, random multi-object lattice, receive-once off, directed maximum-length cases, filesystem writer) are run sender -> stream -> receiver in process; an oracle at the writer boundary demands exactly the expected complete copies, byte equality and metadata equality, no failed writer and refusal of objects above the scheme maximum. Held on the sessions run.",
+     note="trusted: harness MD5/flate2/url crates, independent wire decoder; clean order-preserving channel; known finding KF-C01-obt-retransfer-duplicates", ref="DESIGN.md §5 C01"),
  "C06": dict(level="exploration", technique="differential round-trip oracle against an independent RFC 5651/5775/6726/5445/5510/6330 codec; exhaustive field-width-class enumeration with boundary + seeded values",
      text="Every combination of CCI/TSI/TOI width class, flags, FEC id and extension subset is driven through flute encoder -> flute decoder, flute encoder -> independent decoder and independent encoder (with unknown/long extensions, all admissible S/O/H classes, PSI/reserved bits, extension order) -> flute decoder, comparing full field records; overflow checks on. Held on the tuples run.",
      note="trusted: vh::wire written from RFC field tables (appendix A), self-checked on every packet; Raptor FTI F/T position not judged against RFC 5053", ref="DESIGN.md §5 C06"),
